@@ -56,7 +56,7 @@ class Menu(object):
 
 VAR_KINDS = ('W', 'R', 'RW', 'AUG', 'DEL', 'AND', 'OR', 'NOT', 'IFEXP', 'CMP', 'COMP', 'DEFR', 'DEFW', 'DEFIFW', 'LAM', 'CALL',
              'CALLK', 'CALLT', 'DEF2R', 'DEF2W', 'CALLP', 'CALLP0')
-NOVAR_KINDS = ('TUP', 'ATTR', 'SUB', 'RATTR', 'RSUB', 'raise', 'S', 'PASS', 'LAMBDA', 'CALLG', 'CLASS', 'FAIL', 'DEFN', 'ALIAS', 'DEFT', 'MKP', 'BINDP', 'SUBPA', 'SUBPI', 'RETK', 'BINDJ', 'SUBJ')
+NOVAR_KINDS = ('TUP', 'ATTR', 'SUB', 'RATTR', 'RSUB', 'raise', 'S', 'PASS', 'LAMBDA', 'CALLG', 'CLASS', 'FAIL', 'DEFN', 'ALIAS', 'DEFT', 'MKP', 'BINDP', 'SUBPA', 'SUBPI', 'RETK', 'BINDJ', 'SUBJ', 'LSTW', 'SLICEW', 'DCTW', 'TUPW')
 
 
 def simple_stmts(menu, loop, fin):
@@ -299,6 +299,14 @@ class Render(object):
       e(ind + 1, 'return %s' % s[1])
     elif k == 'LAM':
       e(ind, 'g = lambda: %s * 100 + %d' % (s[1], self.new()))
+    elif k == 'LSTW':        # a local list / dict and stores through a slice / a tuple index (they do not rebind the container)
+      e(ind, 'x = [%d]' % self.new())
+    elif k == 'SLICEW':
+      e(ind, 'x[0:1] = [%d]' % self.new())
+    elif k == 'DCTW':
+      e(ind, 'y = {}')
+    elif k == 'TUPW':
+      e(ind, 'y[0, 1] = %d' % self.new())
     elif k == 'RETK':        # the return expression itself raises (KeyError), implicitly
       e(ind, "return d['missing%d']" % self.new())
     elif k == 'BINDJ':       # a name used as the index of a subscript store
